@@ -8,6 +8,8 @@ static const struct {
 } engines[] = {
     {"b64", eng_b64},
     {"jid", eng_jid},
+    {"hash", eng_hash},
+    {"dns", eng_dns},
 };
 
 int main(int argc, char **argv)
